@@ -25,6 +25,13 @@ PROGS = {
                                             'v, U { n: =~ pre }', True, True),
     "user-like-generic-pattern": ('#[derive(Debug)] struct Name(String); struct Starts<T>(T); impl<T: AsRef<str>> assert_struct::Like<Starts<T>> for Name { fn like(&self, p: &Starts<T>) -> bool { self.0.starts_with(p.0.as_ref()) } } impl<T: AsRef<str>> assert_struct::Like<Starts<T>> for String { fn like(&self, p: &Starts<T>) -> bool { self.starts_with(p.0.as_ref()) } } #[derive(Debug)] struct U { n: Name, s: String } let v = U { n: Name("abc".to_string()), s: "abc".to_string() };',
                                   'v, U { n: =~ Starts("ab"), s: =~ Starts("ab".to_string()) }', True, True),
+    # no built-in impl may exist in one configuration only: a user pattern applied to a wrapper of the user's type needs the user's own impl in both
+    "user-like-on-option-without-own-impl": ('#[derive(Debug)] struct Name(String); struct Pre(&\'static str); impl assert_struct::Like<Pre> for Name { fn like(&self, p: &Pre) -> bool { self.0.starts_with(p.0) } } #[derive(Debug)] struct U { n: Option<Name>, b: Box<Name>, v: Vec<Name> } let v = U { n: Some(Name("abc".to_string())), b: Box::new(Name("abc".to_string())), v: vec![] };',
+                                             'v, U { n: =~ Pre("ab"), .. }', False, False),
+    "user-like-on-option-with-own-impl": ('#[derive(Debug)] struct Name(String); struct Pre(&\'static str); impl assert_struct::Like<Pre> for Name { fn like(&self, p: &Pre) -> bool { self.0.starts_with(p.0) } } impl assert_struct::Like<Pre> for Option<Name> { fn like(&self, p: &Pre) -> bool { self.as_ref().map_or(false, |n| n.like(p)) } } #[derive(Debug)] struct U { n: Option<Name> } let v = U { n: Some(Name("abc".to_string())) };',
+                                          'v, U { n: =~ Pre("ab") }', True, True),
+    "user-like-on-vec-and-ref-with-own-impl": ('#[derive(Debug)] struct Name(String); struct Pre(&\'static str); impl assert_struct::Like<Pre> for Name { fn like(&self, p: &Pre) -> bool { self.0.starts_with(p.0) } } impl assert_struct::Like<Pre> for Vec<Name> { fn like(&self, p: &Pre) -> bool { self.iter().all(|n| n.like(p)) } } impl<\'a> assert_struct::Like<Pre> for &\'a Name { fn like(&self, p: &Pre) -> bool { (**self).like(p) } } #[derive(Debug)] struct U { v: Vec<Name> } let v = U { v: vec![Name("abc".to_string())] };',
+                                               'v, U { v: =~ Pre("ab") }', True, True),
     # a regex literal stays a regex literal: without the feature it is rejected even where a user impl could give it another meaning
     "regex-literal-user-like-str": ('#[derive(Debug)] struct Tag(String); impl assert_struct::Like<&str> for Tag { fn like(&self, p: &&str) -> bool { self.0.starts_with(*p) } } let v = Tag("abc".to_string());',
                                     'v, =~ "a.c"', None, False),
